@@ -94,4 +94,23 @@ PROPS = {
         "level_note": "Trusted: Lean kernel; hand-written model Chain/Tally.lean; mock bank keeper supplies total supply; the monitor leaves differences below 10^-5 of a group weight (rounding of LegacyDec and TruncateInt) undecided. Partial: lifecycle transitions, one-vote-per-address, vote-power sources are not yet theorems.",
         "trusted": ["model Chain/Tally.lean written by hand", "seeded dispute store + mock bank keeper in the tally family"],
     },
+    "C03": {
+        "props_module": "LayerModel.Props.C03",
+        "families": [("supply", 64, 1500, "chain")],
+        "gen": ["facts", "formulas"],
+        "rule": "supply: chain histories (real app, 1-3 validators) of >= 10 blocks in which time-based minting produced at least one non-zero provision; distinct = distinct operation sequences",
+        "level_text": "Theorems: block provision and tip burn are the code's formulas (regenerated); nothing is minted before governance starts minting nor in the first block after; the provision splits exactly into the reward-pool part and the truncated fee-pool quarter; cumulative minting over ANY sequence of non-decreasing block times is bounded by rate x elapsed time (induction over the block list); supply after a block = supply before + provision + documented deltas; the MintCoins/BurnCoins call-site table and the module-account permission table are regenerated from the source and proved equal to the expected tables. Frame condition tied to the code by chain-mode correspondence: the REAL application (multi-validator genesis, real ante chain, real vote extensions) executes generated histories over every message type; after every block its total supply must equal the model's prediction from the documented events alone (tips, withdrawals, claims, dispute executions, dust) and the bank TotalSupply invariant must hold.",
+        "level_note": "Trusted: Lean kernel; model Chain/Supply.lean; cosmos-sdk bank/gov/staking are real in the harness, not modelled; documented event amounts are derived by the harness from the submitted operations and tx results (dispute burn amount read from the dispute record, refund dust from the refund transaction's own burn event). Deposit claims need 2000-block windows and appear only in the dedicated C14 scenarios.",
+        "trusted": ["model Chain/Supply.lean", "harness chain_test.go / hist_test.go (history runner)", "extract (mint/burn sites, maccPerms)"],
+    },
+    "C02": {
+        "props_module": "LayerModel.Props.C02",
+        "families": [("nohalt", 72, 2000, "chain")],
+        "gen": ["facts", "formulas"],
+        "rule": "nohalt: chain histories (real app, 2-4 validators, hostile values, all layer message types, governance cycle-list changes, gaps 1 ms .. 22 days) with >= 10 blocks; distinct = distinct operation sequences",
+        "level_text": "Search-backed: the property quantifies over all transaction sequences of the whole application; it is decided by executing the REAL application on generated hostile histories and requiring every block to be produced (no FinalizeBlock error or panic, honest proposal accepted). Theorems cover each failure site found on the begin/end-block paths: the cycle-list pointer lookup is total over any sequence of rotations and governance replacements; every report value SubmitValue accepts parses at aggregation time; every mint output is positive for every positive provision; the dispute begin-blocker's tally is total; with counterexample theorems for the four pre-fix halts.",
+        "level_note": "Partial: whole-path totality of Pre/Begin/EndBlock is NOT a theorem (cosmos-sdk modules and most keeper code are exercised, not modelled); environment assumptions: honest validators' vote extensions (produced by the real ExtendVoteHandler), at least one validator keeps power (the generator never disputes the last validator).",
+        "level": "exploration",
+        "trusted": ["harness chain_test.go / hist_test.go", "models Chain/OracleBlock.lean, Chain/Tally.lean"],
+    },
 }
